@@ -68,6 +68,21 @@ class Ctx:
         self.findings.append(Finding(self.prop, rule, construct, where, message, facts))
         self.judge(rule, instance or construct, ok=False, facts=facts)
 
+    def wired(self, rule, instance, where, src, fragments, message, tokens=None, reshaped_if=None):
+        """Wiring rule: every fragment is a statement / expression of the function source ``src`` (see exprs.wiring).
+        Removed step -> violation; step present in another form -> AnalysisError (unrecognised idiom, exit 2)."""
+        from sa import exprs as X
+        from sa.model import AnalysisError
+        st = [(f, X.wiring(src, f, tokens, reshaped_if)) for f in fragments]
+        if all(v == 'ok' for _, v in st):
+            return self.judge(rule, instance)
+        gone = [f for f, v in st if v == 'absent']
+        if gone:
+            return self.violation(rule, instance, where, f'{message} (missing: `{gone[0]}`)')
+        raise AnalysisError(f'{rule} {instance}: `{[f for f, v in st if v == "reshaped"][0]}` is no longer present in this form at {where}, '
+                            f'but everything it refers to still occurs in the function: unrecognised idiom, the rule cannot tell '
+                            f'whether the step is still performed')
+
     def note(self, text):
         self.notes.append(text)
 
